@@ -60,9 +60,10 @@ struct bitset {
     )
         : bitset(0ULL)
     {
-        auto const len = etl::min<decltype(pos)>(n, str.size() - pos);
-        TETL_PRECONDITION(len >= 0);
-        TETL_PRECONDITION(len <= size());
+        TETL_PRECONDITION(pos <= str.size());
+
+        // Only the first size() characters of a longer string are used.
+        auto const len = etl::min<decltype(pos)>(etl::min<decltype(pos)>(n, str.size() - pos), size());
 
         // The last used character corresponds to bit 0, the first to the highest bit.
         for (decltype(pos) i = 0; i < len; ++i) {
